@@ -2,7 +2,7 @@
 ADAPTATIONS = [
     "A1 callable(x) on a symbolic int/float/bool/str/bytes/tuple/list/dict returns False without realising x",
     "A2 getattr/hasattr/setattr builtins with a concrete name on a non-symbolic object run the normal attribute protocol with tracing ON (type(o).__getattribute__ -> __getattr__ fallback; type(o).__setattr__); differential self-test at shard start",
-    "A3 format()/f-string of a symbolic number yields the placeholder '<symbolic>' (message text is outside the claim) unless the harness selects the faithful policy",
+    "A3 format()/repr()/f-string of a symbolic number (repr: also of a symbolic str) yields the placeholder '<symbolic>' (message text is outside the claim) unless the harness selects the faithful policy",
     "A4 crosshair.register_contract.get_contract swallows TypeError for unhashable callables",
     "A5 param._utils._find_pname returns None and param's logger gets a NullHandler (stack walking/logging only)",
     "A6 PYTHONHASHSEED=0 and the search order is seeded from VERIF_SEED",
